@@ -78,17 +78,39 @@ class Facts:
         self.log = log or (lambda m: print(m, file=sys.stderr))
         self.key = source_hash(self.root, extra=[p for p in (SYNSCAN, MIRSCAN) if os.path.exists(p)])
         self.dir = os.path.join(VERIF, '.cache', self.key[:24])
+        self.lock = os.path.join(VERIF, '.cache', self.key[:24] + '.lock')    # one lock per source state: unrelated trees extract in parallel
+        self._touch_and_prune()
         self._syn = None
         self._mir = None
         self._exp = None
         self.timings = {}
+
+    def _touch_and_prune(self, keep=10, max_age=6 * 3600):
+        """the cache is keyed by content; scratch copies (controls, seeds) leave entries behind: keep the `keep` most
+        recently used ones and anything used in the last hours"""
+        base = os.path.join(VERIF, '.cache')
+        try:
+            if os.path.isdir(self.dir):
+                os.utime(self.dir, None)
+            ents = [(os.path.getmtime(os.path.join(base, d)), d) for d in os.listdir(base) if os.path.isdir(os.path.join(base, d))]
+            ents.sort(reverse=True)
+            now = time.time()
+            for mt, d in ents[keep:]:
+                if now - mt > max_age and d != self.key[:24]:
+                    shutil.rmtree(os.path.join(base, d), ignore_errors=True)
+                    try:
+                        os.remove(os.path.join(base, d + '.lock'))
+                    except OSError:
+                        pass
+        except OSError:
+            pass
 
     # ------------------------------------------------------------------ E1
     def syn(self):
         if self._syn is not None:
             return self._syn
         out = os.path.join(self.dir, 'syn.json')
-        with Lock(os.path.join(VERIF, '.cache', 'lock')):
+        with Lock(self.lock):
             if not os.path.exists(out):
                 if not os.path.exists(SYNSCAN):
                     raise RuntimeError('synscan binary missing: run MANIFEST.setup_cmd (%s)' % SYNSCAN)
@@ -115,7 +137,7 @@ class Facts:
         if self._mir is not None:
             return self._mir
         out = os.path.join(self.dir, 'mir')
-        with Lock(os.path.join(VERIF, '.cache', 'lock')):
+        with Lock(self.lock):
             if not os.path.exists(os.path.join(out, 'DONE')):
                 self._run_mirscan(out)
         facts = {}
@@ -153,7 +175,7 @@ class Facts:
     def mir_deps(self):
         """mirscan over every crate of the build (RUSTC_WRAPPER): statics and call sites of the dependency closure"""
         out = os.path.join(self.dir, 'mirdeps')
-        with Lock(os.path.join(VERIF, '.cache', 'lock')):
+        with Lock(self.lock):
             if not os.path.exists(os.path.join(out, 'DONE')):
                 self._run_mirscan(out, wrapper_all=True)
         facts = {}
@@ -208,7 +230,7 @@ class Facts:
         if self._exp is not None:
             return self._exp
         out = os.path.join(self.dir, 'exp.json')
-        with Lock(os.path.join(VERIF, '.cache', 'lock')):
+        with Lock(self.lock):
             if not os.path.exists(out):
                 os.makedirs(self.dir, exist_ok=True)
                 t0 = time.time()
